@@ -294,7 +294,13 @@ func (p c11) Run(c *core.Ctx) {
 		g.Sc.Config = c11Config
 		g.ShuffleOrders()
 		rec := &recorder{seen: map[string][]string{}}
-		scan := &mytagScanner{processors.DefaultTagScanDefinitionRegistryPostProcessor{NodeType: "custom", Tag: "mytag"}}
+		// the user's tag processor declares a property type of its own, or shares the built-in configuration
+		// type: either way it is handed its tag's value and arguments, nothing added
+		nt := component_definition.PropertyType("custom")
+		if s%2 == 0 {
+			nt = component_definition.PropertyTypeConfiguration
+		}
+		scan := &mytagScanner{processors.DefaultTagScanDefinitionRegistryPostProcessor{NodeType: nt, Tag: "mytag"}}
 		extra := []any{h, rec, scan}
 		if s%2 == 1 {
 			// an early user post-processor that answers with the properties it handled (none)
